@@ -94,9 +94,91 @@ def shard(ctx):
             ctx.violation(sig, d, case)
 
     run()
+    if ctx.shard < len(WIDE):
+        # wide operations: hundreds of top-level fields (batched, aliased mutations), every runtime
+        n, every = WIDE[ctx.shard]
+        case = {"wide": n, "deferred_every": every}
+        for sig, d in check_wide(case):
+            ctx.violation(sig, d, case)
+        ctx.case(key=("wide", n, every), nontrivial=True, sample=case)
+        ctx.event("wide-mutation")
+
+
+WIDE = [(120, 0), (450, 0), (450, 3), (1200, 7), (333, 2), (1000, 0)]
+
+
+def check_wide(case):
+    """`mutation { f0: inc f1: inc ... }` with n top-level fields; every k-th one is served by a deferred resolver (coroutine /
+    pool task). Oracle: no exception, the resolvers ran one after another in document order (the counter values are 1..n in
+    response order), the response lists the keys in document order."""
+    import asyncio
+    from py_gql import build_schema, process_graphql_query
+    from py_gql.execution import Executor, BlockingExecutor
+    from py_gql.execution.runtime import AsyncIORuntime, ThreadPoolRuntime
+    n, every = case["wide"], case.get("deferred_every", 0)
+    names = ["f%d" % i for i in range(n)]
+    doc = "mutation { " + " ".join("%s: %s" % (a, "slow" if every and i % every == 0 else "inc") for i, a in enumerate(names)) + " }"
+    vios = []
+
+    def judge(config, data):
+        if list(data) != names:
+            vios.append(("C09/wide-mutation/%s/data-key-order" % config, "n=%d first keys=%r" % (n, list(data)[:5])))
+        elif list(data.values()) != list(range(1, n + 1)):
+            bad = [i for i, v in enumerate(data.values()) if v != i + 1][:3]
+            vios.append(("C09/wide-mutation/%s/not-serial" % config, "n=%d counter values out of order at %r" % (n, bad)))
+
+    def schema_for(slow):
+        s = build_schema("type Query { a: Int } type Mutation { inc: Int slow: Int }")
+        log = []
+
+        def inc(root, ctx, info):
+            log.append(1)
+            return len(log)
+        s.register_resolver("Mutation", "inc", inc)
+        s.register_resolver("Mutation", "slow", slow(inc))
+        return s
+
+    def run(config, fn):
+        import concurrent.futures
+        try:
+            judge(config, fn().response()["data"])
+        except concurrent.futures.TimeoutError:
+            pass   # a wall-clock budget ran out on a loaded machine: inconclusive, never a violation
+        except BaseException as e:  # noqa
+            vios.append(("C09/wide-mutation/%s/raises-%s" % (config, type(e).__name__), "n=%d deferred_every=%d: %r" % (n, every, str(e)[:100])))
+
+    same = lambda inc: inc  # noqa
+    run("blocking-executor", lambda: process_graphql_query(schema_for(same), doc, executor_cls=BlockingExecutor))
+    run("executor-blocking", lambda: process_graphql_query(schema_for(same), doc, executor_cls=Executor))
+
+    def submitting(inc):
+        return lambda root, ctx, info: info.runtime.submit(inc, root, ctx, info)
+
+    def on_pool():
+        rt = ThreadPoolRuntime(max_workers=2)
+        try:
+            return process_graphql_query(schema_for(submitting), doc, runtime=rt).result(timeout=600)
+        finally:
+            rt._inner.shutdown(wait=True)
+    run("threadpool", on_pool)
+
+    def coro(inc):
+        async def slow(root, ctx, info):
+            await asyncio.sleep(0)
+            return inc(root, ctx, info)
+        return slow
+
+    def on_loop():
+        async def main():
+            return await process_graphql_query(schema_for(coro), doc, runtime=AsyncIORuntime(execute_blocking_functions_in_thread=False))
+        return asyncio.run(main())
+    run("asyncio", on_loop)
+    return vios
 
 
 def replay(case):
+    if "wide" in case:
+        return check_wide(case)
     return check_case(case, None, exhaustive=case.get("exhaustive", False)) or []
 
 
